@@ -409,6 +409,12 @@ func init() {
 			info := hd.Pkg.TypesInfo
 			kgr := r.P.Field("workers/operator", "Operator", "keyGroupRange")
 			idF := r.P.Field("workers/operator", "Operator", "id")
+			// every deploy (not only the first) rebuilds the key space and the own range: a
+			// surviving operator is redeployed with a different operator count on scale-in
+			for _, fn := range []string{"keySpace", "keyGroupRange"} {
+				fld := r.P.Field("workers/operator", "Operator", fn)
+				r.assignsFieldOnAllPaths(hd.Decl, hd.Name(), fld, nil, "every-deploy:"+fn, "HandleDeploy can succeed without rebuilding Operator."+fn+" from this deployment's (key-group count, operators): a redeployed operator would keep the previous assembly's partitioning while the source runners route with the new one")
+			}
 			ranges := r.P.FuncObj("partitioning", "(*KeySpace).KeyGroupRanges")
 			// ownIndex := slices.IndexFunc(req.Operators, func(op) bool { return op.Id == o.id })
 			var own types.Object
